@@ -13,7 +13,19 @@ PROPS = {
     },
 }
 
+PROPS["C13"] = {
+    "gen": ["Pyramid"],
+    "trusted_base": ["a tile filter is a deterministic function of the tile's position (tiles are functions of positions: C04)"],
+    "assumptions": COMMON_ASSUME,
+    "partial": "",
+}
+
 LEVEL_TEXT = {
+    "C13": {
+        "text": "Kernel-checked theorems for every depth and position: parent/child/slot inverses, is_subtile = shift relation = iterated parent (incl. its ValueError case), generate_pos is duplicate-free, yields exactly the in-scope positions, every position after its four children, and has the code's closed-form counts (depth2tiles / tiles_at_depth, incl. depth2tiles(-1)=0). pos_parent / pos_children / slot and bit formulas are re-extracted from pyramid.py each run and bridged to the model by lemmas. The executable model of the generators and of PyramidReductionIterator is run against the real classes (yield sequence incl. child data, results, visits) on every accept-set of depth 1 and random hierarchical accept-sets x apexes.",
+        "note": "trusted: Lean kernel; py2lean; the harness. A filter is modelled as a function of the position. Statements about filtered counters rest on red_refines_fold (Props/C01) where proved, and on the model/implementation correspondence otherwise.",
+        "technique": "Lean 4 proof (induction over the quadtree) + differential execution of the model",
+    },
     "C08": {
         "text": "Kernel-checked theorems (all widths/heights/sub-images, no bound) about the StudyTiling arithmetic as translated from study.py on every run: smallest power-of-two square >= 256, centring, every image pixel in exactly one in-tile rectangle, rectangles inside tiles and image, count = length, image_to_tile agreement, sub-images share geometry. The translation is executed differentially against the Python functions, and the real tiler's files are read back and reassembled for every format/mode class.",
         "note": "trusted: Lean kernel; py2lean translator (differentially executed); numpy slice assignment and the codecs (exercised by read-back, not modelled). The pixel-level 'reassemble' statement rests on the fill model of Model/Pixels (C15) plus the row formulas extracted from tile_image.",
